@@ -59,6 +59,10 @@ ALPHABET = {
     'login-badpw': ([b'LOGIN testuser wrong'], lambda u: 'login:-'),
     'login-nouser': ([b'LOGIN nobody x'], lambda u: 'login:-'),
     'login-empty': ([b'LOGIN "" ""'], lambda u: 'login:-'),
+    'login-locked-empty': ([b'LOGIN locked ""'], lambda u: 'login:-'),
+    'login-locked-shy': ([b'LOGIN locked {2+}\r\n\xc2\xad'], lambda u: 'login:-'),
+    'auth-plain-locked-empty': ([b'AUTHENTICATE PLAIN', plain('', 'locked', '')], lambda u: 'auth:1:1:-'),
+    'auth-login-locked-empty': ([b'AUTHENTICATE LOGIN', base64.b64encode(b'locked'), b''], lambda u: 'auth:1:1:-'),
     'auth-plain-ok': ([b'AUTHENTICATE PLAIN', plain('', 'testuser', 'testpass')], lambda u: 'auth:1:1:1'),
     'auth-plain-badpw': ([b'AUTHENTICATE PLAIN', plain('', 'testuser', 'nope')], lambda u: 'auth:1:1:-'),
     'auth-plain-admin-as-bob': ([b'AUTHENTICATE PLAIN', plain('bob', 'root', 'pwroot')], lambda u: 'auth:1:1:2'),
@@ -114,7 +118,9 @@ CONFIGS = [(False, True), (True, True), (True, False)]      # (tls enabled, peer
 
 async def make_server(tls, subsystem=None):
     from pymap.imap import IMAPServer
-    kw = dict(demo_data=True, users=[('bob', 'pwbob', ()), ('root', 'pwroot', ('admin',)), ('helper', 'pwhelper', ('support',))], tls_enabled=tls)
+    kw = dict(demo_data=True, users=[('bob', 'pwbob', ()), ('root', 'pwroot', ('admin',)), ('helper', 'pwhelper', ('support',)),
+                                    # an existing account without a stored secret: no credentials verify against it, the empty password included
+                                    ('locked', None, ())], tls_enabled=tls)
     if tls:
         kw['ssl_context'] = ssl.create_default_context(ssl.Purpose.CLIENT_AUTH)
     backend, config = await backends.make_dict(**kw)
